@@ -48,8 +48,9 @@ impl Backend {
                     },
                 };
 
-                // Range covers the whole fixture definition line
-                let range = Self::create_point_range(def_line, 0);
+                // Range runs from the start of the definition line to the end of the name, so
+                // that it contains the selection range (as the protocol requires)
+                let range = Self::create_range(def_line, 0, def_line, definition.end_char as u32);
 
                 let item = CallHierarchyItem {
                     name: definition.name.clone(),
@@ -227,7 +228,7 @@ impl Backend {
                         }
                     )),
                     uri: dep_uri,
-                    range: Self::create_point_range(dep_line, 0),
+                    range: Self::create_range(dep_line, 0, dep_line, dep_def.end_char as u32),
                     selection_range: to_range,
                     data: None,
                 };
